@@ -192,6 +192,12 @@ func (s *stream) corruptFramed(pick int, mask byte, tiny int) bool {
 		return false
 	}
 	f := frames[pick%len(frames)]
+	if tiny == -3 {
+		// the length field declares far more than will ever arrive
+		giant := []uint32{0x10000000, 0x7fffffff, 0x80000000, 0xffffffff}[pick%4]
+		s.inflight[f.start+1], s.inflight[f.start+2], s.inflight[f.start+3], s.inflight[f.start+4] = byte(giant>>24), byte(giant>>16), byte(giant>>8), byte(giant)
+		return true
+	}
 	if tiny >= 100 {
 		// the message cut down to its first tiny-100 payload bytes, with a matching length field
 		keep := min(tiny-100, f.end-f.payload)
